@@ -7,6 +7,8 @@ import (
 	"fmt"
 	"strings"
 	"time"
+
+	"golang.org/x/crypto/bcrypt"
 )
 
 // C01 — No upstream access or identity disclosure without a valid credential or bypass.
@@ -87,7 +89,12 @@ func vfC01(w *vfWorld) {
 	cs.Htpasswd = t.Bool("c01.htpasswd")
 	htGroups := []string{}
 	if cs.Htpasswd {
-		ht := w.writeFile("htpasswd", vfSHAEntry("hank", "pw-hank")+"\n"+vfSHAEntry("ivy", "pw-ivy")+"\n")
+		bh, err := bcrypt.GenerateFromPassword([]byte("pw-bea"), bcrypt.MinCost)
+		if err != nil {
+			w.fatalf("bcrypt: %v", err)
+		}
+		// "lock": a bcrypt-prefixed entry that is not a parseable hash (a locked account); "cost": unsupported cost
+		ht := w.writeFile("htpasswd", vfSHAEntry("hank", "pw-hank")+"\n"+vfSHAEntry("ivy", "pw-ivy")+"\nbea:"+string(bh)+"\nlock:$2y$05$LOCKED\ncost:$2y$99$"+strings.Repeat("a", 53)+"\n")
 		cfg.Extra = append(cfg.Extra, "--htpasswd-file="+ht)
 		if t.Bool("c01.htgroup") {
 			htGroups = []string{"dev"}
@@ -259,6 +266,11 @@ func vfC01(w *vfWorld) {
 		basic("basic credential with wrong password", "hank", "pw-ivy", false)
 		basic("basic credential of unknown user", "nobody", "pw-hank", false)
 		basic("basic credential with empty password", "ivy", "", false)
+		basic("valid basic credential (bcrypt entry)", "bea", "pw-bea", true)
+		basic("wrong password for a bcrypt entry", "bea", "pw-hank", false)
+		basic("any password for a locked (unparseable bcrypt) entry", "lock", "pw-hank", false)
+		basic("empty password for a locked entry", "lock", "", false)
+		basic("any password for an entry with unsupported bcrypt cost", "cost", "x", false)
 	}
 
 	// ---- requests ----
